@@ -592,7 +592,7 @@ Qed.
 (** ** Admission *)
 Lemma create_market_stored m s :
   create_market m = Some s ->
-  s_mkt s = m /\
+  s_mkt s = clear_reqs m /\
   s_req_ask s = map normalize_name (map bytes_of (m_req_ask m)) /\
   s_req_bid s = map normalize_name (map bytes_of (m_req_bid m)) /\
   s_req_com s = map normalize_name (map bytes_of (m_req_com m)).
@@ -605,13 +605,13 @@ Qed.
 
 Definition action_wf (a : action) : Prop :=
   match a with
-  | ACreateAsk p _ _ | ACreateBid p _ _ | AFillBids p _ _ | AFillAsks p _ _ => 0 <= amt_of p
-  | ACommit _ => True
+  | ACreateAsk p _ _ | ACreateBid p _ _ | AFillAsks _ p _ _ => 0 <= amt_of p
+  | ACommit _ | AFillBids _ _ _ _ => True
   end.
 
 (** [s] is what the store holds for the configuration [m]. *)
 Definition stored_of (m : market) (s : stored) : Prop :=
-  s_mkt s = m /\
+  s_mkt s = clear_reqs m /\
   s_req_ask s = map normalize_name (map bytes_of (m_req_ask m)) /\
   s_req_bid s = map normalize_name (map bytes_of (m_req_bid m)) /\
   s_req_com s = map normalize_name (map bytes_of (m_req_com m)).
@@ -621,8 +621,10 @@ Lemma admission_stored m s accs a :
   admits (Some s) accs a = admit_spec true m accs a.
 Proof.
   intros (W1 & W2 & W3 & W4 & W5 & W6 & W7) Wa (Em & Ea & Eb & Ec).
-  unfold admits, admit_spec. rewrite Em, Ea, Eb, Ec. cbn [andb].
-  destruct a as [p sf cf|p sfs cf|cf|p sf cf|p sfs cf]; cbn [action_wf] in Wa;
+  unfold admits, admit_spec. rewrite Em, Ea, Eb, Ec.
+  cbn [andb clear_reqs m_create_ask m_create_bid m_create_com m_seller_flat m_seller_ratios m_buyer_flat
+       m_buyer_ratios m_accepting_orders m_user_settle m_accepting_commitments].
+  destruct a as [p sf cf|p sfs cf|cf|ok ps sf cf|ok p sfs cf]; cbn [action_wf] in Wa;
     rewrite ?attrs_spec_eq, ?flat_fee_spec_eq, ?buyer_fee_spec_eq, ?ask_price_spec_eq by assumption;
     try reflexivity.
   (* commitments: the Go code checks the fee before the flag and the attributes *)
@@ -642,7 +644,7 @@ Qed.
     updated configuration. *)
 Lemma set_flags_stored_of m s ao us ac :
   stored_of m s -> stored_of (set_flags m ao us ac) (set_flags_stored s ao us ac).
-Proof. intros (Em & Ea & Eb & Ec). unfold stored_of. cbn. rewrite Em. auto. Qed.
+Proof. intros (Em & Ea & Eb & Ec). unfold stored_of. cbn [set_flags_stored s_mkt s_req_ask s_req_bid s_req_com]. rewrite Em. auto. Qed.
 
 Lemma set_flags_wf m ao us ac : market_wf m -> market_wf (set_flags m ao us ac).
 Proof. intros W. exact W. Qed.
